@@ -455,7 +455,7 @@ def finish(env, module):
     return 0
 
 
-def run_miri(env, name, case_text, target=None, sched="seq", seed=0, timeout=5400):
+def run_miri(env, name, case_text, target=None, sched="seq", seed=0, timeout=5400, features=None):
     """Interprets the driver under Miri, optionally for another target triple (32-bit, big-endian).
     Returns (sessions, note); sessions is None when Miri could not run (never a verdict)."""
     import subprocess as sp
@@ -474,6 +474,8 @@ def run_miri(env, name, case_text, target=None, sched="seq", seed=0, timeout=540
     cmd = ["cargo", "+nightly", "miri", "run", "--offline", "--target-dir", os.path.join(VERIF, "target", "miri")]
     if target:
         cmd += ["--target", target]
+    if features is not None:
+        cmd += ["--no-default-features", "--features", ",".join(features)]
     cmd += ["--", "run", case, ev, "--sched", sched]
     try:
         p = sp.run(cmd, cwd=cdir, env=e, stdout=sp.PIPE, stderr=sp.PIPE, timeout=timeout)
